@@ -75,6 +75,11 @@ func Load(dir string) (*World, error) {
 	if len(errs) > 0 {
 		return nil, fmt.Errorf("load: %d type/list errors, first: %s", len(errs), errs[0])
 	}
+	for _, f := range root.IgnoredFiles {
+		if strings.HasSuffix(f, ".go") && !strings.HasSuffix(f, "_test.go") {
+			return nil, fmt.Errorf("load: %s is excluded by a build constraint: the analysis would cover one build configuration only", f)
+		}
+	}
 	if len(root.GoFiles) < 20 {
 		return nil, fmt.Errorf("load: only %d non-test files (expected >= 20)", len(root.GoFiles))
 	}
